@@ -16,26 +16,27 @@ TXT = [inst("dlt_text", "c18_v3_text_" + n, tiers, d, "V3 canonical text + separ
 
 PROP = {
     "manifest": dict(
-        text="WITHOUT float/string/wide-integer TEXT. V1 encode/decode agreement: both encoders (utils::payload_from_args in both byte orders; serde_verb_payload::Serializer, host order) -> real DltMessageArgIterator: k <= 2 (thorough 3) arguments of "
+        text="WITHOUT TEXT. V1 encode/decode agreement: both encoders (utils::payload_from_args in both byte orders; serde_verb_payload::Serializer, host order) -> real DltMessageArgIterator: k <= 2 (thorough 3) arguments of "
              "symbolic kind (bool, u8..u64, i8..i64, f32/f64 as raw bits, UTF-8/ASCII strings and raw bytes of 0..3 B) decode to exactly k arguments with the same type info and raw bytes, then None. V2 a payload cut at any point "
              "decodes to a prefix of the original arguments; on ARBITRARY payload bytes (<= 16 B: every truncation/corruption) each returned slice lies inside the payload and iteration terminates. "
-             "V3 (partial) the real text renderer process_msg_arg_iter on 1..3 arguments of the kinds bool / u8 / i8 (all values) / empty raw / empty or NUL-only string: canonical decimal / true|false text and exactly one "
-             "separating space per argument boundary. NOT covered: text of 16..128-bit integers, floats, non-empty strings and raw bytes (itoa division chains, core::fmt, regex, encoding_rs: not encodable or not finishing).",
+             "NOT covered: the TEXT rendering (V3 of the design). A harness for the cheap part (bool / 8-bit / empty arguments, separator rule; harness/dlt_text.rs, kept unregistered) finishes in 30 s on a "
+             "variant of process_msg_arg_iter without `.enumerate()` but not within 57 min / 24 GB on the pinned code: CBMC loses the constant type info behind Enumerate and explores every rendering branch (u128 itoa, core::fmt). "
+             "So 'canonical text' is outside this check.",
         note=TB + "string bytes restricted to ASCII for the serde &str path (valid UTF-8 required by the type).",
         technique="bounded model checking of the real code (Kani/CBMC): encoder -> decoder agreement with symbolic argument kinds and bytes"),
-    "inject": [("src/dlt/mod.rs", "dlt_args.rs"), ("src/dlt/mod.rs", "dlt_text.rs")],
+    "inject": [("src/dlt/mod.rs", "dlt_args.rs")],
     "kf_roles": ["c18_empty_strg_rawd_no_length"],
     "functions": ["utils::payload_from_args", "serde_verb_payload::Serializer (serialize_bool/u8..u64/i8..i64/f32/f64/str/bytes/newtype_variant)", "serde_verb_payload::add_to_serializer",
-                  "dlt::DltMessageArgIterator::next", "<&DltMessage as IntoIterator>::into_iter", "DltMessage::process_msg_arg_iter (bool/8-bit/empty-argument paths)"],
+                  "dlt::DltMessageArgIterator::next", "<&DltMessage as IntoIterator>::into_iter"],
     "bounds": "<= 3 arguments, variable-length arguments <= 3 B, arbitrary payloads <= 16 B",
-    "stubs": ["V3 only: encoding_rs::Encoding::decode_without_bom_handling, regex::Regex::replace_all, <dlt::RE_NEW_LINE as Deref>::deref (never executed for the generated argument kinds; needed because kani-compiler crashes on code that mentions them)"],
-    "outside": ["text of 16..128-bit integers, floats, non-empty strings / raw bytes (itoa division chains, core::fmt, regex, encoding_rs)",
+    "stubs": [],
+    "outside": ["DltMessage::payload_as_text / process_msg_arg_iter: all text rendering incl. the separator rule (see manifest text)",
                 "more than 3 arguments; strings longer than 3 bytes; VARI/FIXP/array/struct type infos (decoder returns None by design)"],
     "assumptions": [],
     "instances": [
         inst(F, "c18_v1_pfa_k1", Q, "1 argument, any kind, both byte orders", "V1 payload_from_args -> iterator agreement", covers=2, timeout=2400),
         inst(F, "c18_v1_pfa_k2", Q, "2 arguments, any kinds, both byte orders", "V1 payload_from_args -> iterator agreement", covers=2, timeout=2400, mem_gb=24, cost=100),
-    ] + SER + TXT + [
+    ] + SER + [
         inst(F, "c03_u2_arg_iter_any_12", Q, "arbitrary payload <= 12 B", "V2 slices inside payload, terminates", covers=2, timeout=2400),
         inst(F, "c18_v2_truncation_prefix", Q, "valid 2-argument payload cut at any point", "V2 decoded sequence is a prefix", covers=2, timeout=2400, mem_gb=24, cost=100),
         inst(F, "c18_v1_witness_empty_strg", Q, "empty raw argument followed by u8", "witness of known finding", kf_witness="c18_empty_strg_rawd_no_length"),
